@@ -842,6 +842,9 @@ pub trait SimField:
     fn checked(b: &[u8]) -> Option<Result<Self, EncodingError>>;
     fn wrap(self) -> FVal;
     fn unwrap(v: &FVal) -> Option<Self>;
+    /// the inherent `rand` (not UniformRand's)
+    fn rand_wide(rng: &mut SimRng) -> Self;
+    fn from_bigint_reduce(le: &[u8]) -> Option<Self>;
 }
 
 macro_rules! sim_field {
@@ -863,6 +866,19 @@ macro_rules! sim_field {
             }
             fn wrap(self) -> FVal {
                 FVal::$t(self)
+            }
+            fn rand_wide(rng: &mut SimRng) -> Self {
+                $t::rand(rng)
+            }
+            fn from_bigint_reduce(le: &[u8]) -> Option<Self> {
+                let mut limbs = [0u64; $n / 8];
+                if le.len() != $n {
+                    return None;
+                }
+                for (i, c) in le.chunks(8).enumerate() {
+                    limbs[i] = u64::from_le_bytes(<[u8; 8]>::try_from(c).ok()?);
+                }
+                Some(<$t as From<ark_ff::BigInt<{ $n / 8 }>>>::from(ark_ff::BigInt(limbs)))
             }
 
             fn unwrap(v: &FVal) -> Option<Self> {
@@ -986,6 +1002,30 @@ fn build_field<F: SimField>(src: &FSrc, fpool: &[FEntry]) -> Option<(F, BigUint)
             let (a, ma) = get(*i);
             (-a, f.neg(&ma))
         }
+        FSrc::RandWide(plan) => {
+            let mut rng = SimRng::new(plan, SAMPLER_BUDGET);
+            let x = F::rand_wide(&mut rng);
+            // reference: the same stream, nbytes + 16 bytes little-endian, reduced
+            let mut r2 = SimRng::new(plan, SAMPLER_BUDGET);
+            let mut b = vec![0u8; f.nbytes + 16];
+            rand_core::RngCore::fill_bytes(&mut r2, &mut b);
+            (x, Fld::int_le(&b) % &f.p)
+        }
+        FSrc::SampleStd(plan) => {
+            let mut rng = SimRng::new(plan, SAMPLER_BUDGET);
+            let x: F = <F as UniformRand>::rand(&mut rng);
+            // which value comes out is the sampler's business; that it is a canonical one is checked by the
+            // conversion checks that follow (the bytes it serialises to must denote an integer below p)
+            let got = Fld::int_le(&x.le_bytes());
+            if got >= f.p {
+                std::panic::panic_any(format!("sampled element serialises to the non-canonical integer {:x}", got));
+            }
+            (x, got)
+        }
+        FSrc::FromBigIntReduce(h) => {
+            let b = unhex(h)?;
+            (F::from_bigint_reduce(&b)?, Fld::int_le(&b) % &f.p)
+        }
         FSrc::Zero => (F::zero(), BigUint::from(0u32)),
         FSrc::One => (F::one(), BigUint::from(1u32)),
     })
@@ -997,6 +1037,9 @@ fn fsrc_name(s: &FSrc) -> &'static str {
         FSrc::LeModTrait(_) => "PrimeField::from_le_bytes_mod_order",
         FSrc::BeMod(_) => "from_be_bytes_mod_order",
         FSrc::Checked(_) => "from_bytes_checked",
+        FSrc::RandWide(_) => "rand_wide",
+        FSrc::SampleStd(_) => "sample_standard",
+        FSrc::FromBigIntReduce(_) => "From<BigInt>",
         FSrc::U64(_) => "From<u64>",
         FSrc::U128(_) => "From<u128>",
         FSrc::Dec(_) => "FromStr",
